@@ -28,14 +28,12 @@ void *ares_malloc(size_t n)
 void ares_free(void *p) { free(p); }
 void *ares_malloc_zero(size_t n)
 {
-  void *p = ares_malloc(n);
-  if (p != NULL) {
-#ifdef VERIF_EXACT_ZERO
-    memset(p, 0, n);
-#else
-    __CPROVER_array_set((char *)p, 0);
-#endif
-  }
+  /* calloc: CBMC zero-initialises the new object for every later typed view (a byte-wise memset of a
+   * symbolic-size object does NOT turn pointer-typed members into NULL in CBMC) */
+  if (n == 0) return NULL;
+  if (ALLOC_FAILS) return NULL;
+  void *p = calloc(1, n);
+  __CPROVER_assume(p != NULL);
   return p;
 }
 #ifdef VERIF_EXACT_LIBC
